@@ -196,6 +196,10 @@ func (p *peerScript) hook(c *memConn, b []byte) (int, error) {
 		c.deliver(ceaFor(react[4:], hbh, e2e))
 	case "cer:P": // an application answer instead of a CEA: must not reach the application before the handshake
 		c.deliver(simpleMsg(272, 0, 4, 700+hbh%7, 700, diam.NewAVP(268, 0x40, 0, datatype.Unsigned32(2001))))
+	case "cer:W": // a watchdog request carrying Origin-State-Id, then an application answer, before any CEA
+		c.deliver(simpleMsg(280, 0x80, 0, 500+hbh%5, 500, diam.NewAVP(264, 0x40, 0, datatype.DiameterIdentity("srv.example.net")),
+			diam.NewAVP(296, 0x40, 0, datatype.DiameterIdentity("example.net")), diam.NewAVP(278, 0x40, 0, datatype.Unsigned32(77))))
+		c.deliver(simpleMsg(272, 0, 4, 700+hbh%7, 700, diam.NewAVP(268, 0x40, 0, datatype.Unsigned32(2001))))
 	case "cer:D":
 		c.peerEOF()
 	case "dwr:A": // answer at once; the reader and dwr() race for who is first
@@ -205,6 +209,11 @@ func (p *peerScript) hook(c *memConn, b []byte) (int, error) {
 		waitFor(c.readerParked, time.Second)
 	case "dwr:L": // late but in time: a third of an interval after the request
 		go func() { time.Sleep(clientInterval / 3); c.deliver(dwaFor(2001, hbh, e2e)) }()
+	case "dwr:T": // the same request answered three times
+		for i := 0; i < 3; i++ {
+			c.deliver(dwaFor(2001, hbh, e2e))
+			waitFor(c.readerParked, time.Second)
+		}
 	case "dwr:F":
 		c.deliver(dwaFor(5012, hbh, e2e))
 		waitFor(c.readerParked, time.Second)
@@ -460,12 +469,12 @@ func genSMClient(r *RNG, n int, op string, emit func(string)) {
 		rec = func(R int, beh []string) {
 			if len(beh) > 0 {
 				last := beh[len(beh)-1]
-				if (last != "N" && last != "P") || len(beh) == R+1 {
+				if (last != "N" && last != "P" && last != "W") || len(beh) == R+1 {
 					emit(fmt.Sprintf("smclient dial r=%d cfg=%d beh=%s post=%s wf=0", R, len(beh)%4, strings.Join(beh, "."), []string{"-", "S", "F.Q", "Q.S.Q", "M.U.A.Q"}[len(beh)%5]))
 					return
 				}
 			}
-			for _, b := range []string{"S", "F", "M", "A", "U", "N", "D", "P"} {
+			for _, b := range []string{"S", "F", "M", "A", "U", "N", "D", "P", "W"} {
 				rec(R, append(append([]string(nil), beh...), b))
 			}
 		}
@@ -484,9 +493,9 @@ func genSMClient(r *RNG, n int, op string, emit func(string)) {
 			R := r.Intn(4)
 			var beh []string
 			for k := 0; k < R+1; k++ {
-				b := []string{"N", "N", "P", "S", "S", "F", "M", "A", "U", "D", "P"}[r.Intn(11)]
+				b := []string{"N", "N", "P", "S", "S", "F", "M", "A", "U", "D", "W"}[r.Intn(11)]
 				beh = append(beh, b)
-				if b != "N" && b != "P" {
+				if b != "N" && b != "P" && b != "W" {
 					break
 				}
 			}
@@ -512,9 +521,9 @@ func genSMClient(r *RNG, n int, op string, emit func(string)) {
 			for c := 0; c < ncyc; c++ {
 				s := ""
 				for k := 0; k < R+1; k++ {
-					b := []string{"A", "E", "E", "L", "F", "N"}[r.Intn(6)]
+					b := []string{"A", "E", "E", "L", "F", "N", "T"}[r.Intn(7)]
 					s += b
-					if b == "A" || b == "E" || b == "L" {
+					if b == "A" || b == "E" || b == "L" || b == "T" {
 						break
 					}
 				}
